@@ -2043,6 +2043,33 @@ def run_lit(case):
                         v.fail(f'literal-render-raises:KeyError:{_frame(ex)}', CL_LIT, f'rendering hl.literal({val!r}) raised {ex!r}')
                 except Exception as ex:      # noqa: a literal whose construction succeeded must render
                     v.fail(f'literal-render-raises:{type(ex).__name__}:{_frame(ex)}', CL_LIT, f'rendering hl.literal({val!r}) raised {ex!r}')
+    # the same Python object converted implicitly, mutated in place, and converted again: the second expression must describe the
+    # object as it is now (implicit conversion goes through to_expr / cast_expr, not hl.literal)
+    mut = None
+    if not (isinstance(val, (list, dict)) and val):
+        # no suitable container in this case: probe with a small one derived from it
+        k_ = len(repr(vd)) % 5
+        val = [k_, k_ + 1] if k_ % 2 == 0 else {'a': k_, 'b': 7}
+        t = hl.tarray(hl.tint32) if isinstance(val, list) else hl.tdict(hl.tstr, hl.tint32)
+    if isinstance(val, list) and val and all(type(x) is int and abs(x) < 2 ** 31 for x in val):
+        mut = ('list', hl.array, lambda o: o.append(2.5), lambda: hl.tarray(hl.tfloat64))
+    elif isinstance(val, dict) and val and all(type(k) is str and type(x) is int and abs(x) < 2 ** 31 for k, x in val.items()) \
+            and not isinstance(t, hl.tstruct):
+        mut = ('dict', hl.dict, lambda o: o.__setitem__('zz_added', 2 ** 40), lambda: hl.tdict(hl.tstr, hl.tint64))
+    if mut is not None:
+        kind_, conv, mutate, want_t = mut
+        try:
+            e_before = conv(val)
+            mutate(val)
+            e_after = conv(val)
+        except Exception as ex:
+            v.fail(f'reconvert-raises:{type(ex).__name__}', CL_LIT, f'converting {val!r} again after an in-place change raised {ex!r}')
+        else:
+            classes.add(f'reconverted_after_inplace_change_{kind_}')
+            if e_after.dtype != want_t():
+                v.fail(f'reconvert-stale-type:{kind_}', CL_LIT,
+                       f'{kind_} object converted, changed in place to {val!r} and converted again: dtype {e_after.dtype}, '
+                       f'first conversion had {e_before.dtype}, the value now needs {want_t()}')
     classes |= v.classes
     if any(c.startswith('outside_grammar') for c in classes):
         classes.add('outside_grammar')
